@@ -98,6 +98,22 @@ CHECKS = {
         "lattice sub-universe; seeded traces.",
         "3/C03",
     ),
+    "C05": (
+        "model_checking",
+        "TLA+ Expr.tla over lib/PyNum.tla: Eval of expression DAGs in plain-Python semantics (integers and dyadic floats, lifted "
+        "operators incl. reflected forms, divmod/round/abs, getitem/slices, calls with keyword and star arguments, attribute of a "
+        "random choice, `self.`-dependent class defaults as a dependency fixpoint) and the library's construction rewrites with "
+        "their side conditions, checked by TLC on every leaf assignment; bound to the code by replay: every node of every DAG is a "
+        "global parameter of a generated program and every RNG branch of Scenario.generate is compared with TLC's vectors, "
+        "supportInterval must contain the exact support",
+        "TLC enumerates every leaf assignment of every case, checks the Python laws, the rewrite side conditions and the dependency "
+        "fixpoint and prints every node value and the exact supports; the set of value vectors observed over all RNG branches of "
+        "the real program must equal the printed set and each supportInterval must contain the spec's min/max or be unknown.",
+        "Exact sub-universe (ints, dyadic floats, tuples; Range scripted to lo/mid/hi); error and non-dyadic cases dropped by the "
+        "spec's well-formedness predicate; vectors, orientations, trigonometry, str, dicts not covered; exhaustive core + seeded "
+        "random DAGs; four open known findings.",
+        "3/C05",
+    ),
     "C06": (
         "model_checking",
         "TLA+ Specifiers.tla: the reference's declarative five-step resolution and the _resolveSpecifiers algorithm as a state "
